@@ -1,2 +1,165 @@
-(* placeholder while the model is being validated *)
-From IL Require Import Model.Syntax.
+(* C09 — Rules behave the same inline, as session rules and as persistent rules.
+
+   Statement (properties.jsonl): any rule accepted by the parser denotes the same rule after being
+   printed and re-parsed, so submitting it inline, as a session rule or as a persistent rule (before
+   and after a restart) yields the same answers.
+
+   Model: Model/Syntax.v   — show_rule  = `Display` for Rule/Atom/BodyPredicate/Term/ArithExpr/AggregateFunc
+                             (src/ast/mod.rs), parse_rule = `parse_rule` and everything it calls
+                             (src/parser/mod.rs, AggregateFunc::parse* in src/ast/mod.rs), at the level of
+                             characters, because the real parser is a cascade of string splits.
+          Model/SyntaxWf.v — the fragment `wf_rule`, the known-finding classes, the submission paths.
+   The environment E carries the three things that are taken from Rust per case and checked per case
+   (Checks/C09.v, tabs_ok): classes of non-ASCII characters, values of f64 lexemes, `{}`/`{:?}` of f64.
+
+   The submission paths in the pinned tree (read, file:line of /repo at the `fix:` commits):
+   * direct      StorageEngine::execute_query_tuples_on -> snapshot -> IQLEngine -> parse_program
+                 (src/parser/mod.rs:46): the text is parsed once.                         = parse
+   * inline      Handler::query_program: every line is parsed by parse_statement (-> parse_rule), a rule
+                 line is printed again (format_rule_text = Display, src/protocol/handler.rs:2973/4997),
+                 collected in session_rules, joined in front of the query (handler.rs:3750) and parsed
+                 by the engine.                                                           = parse . print . parse
+   * session     Handler::execute_program: format_rule_text(rule) is stored as the session's rule text
+                 (handler.rs:4582) and joined in front of every query (handler.rs:4003).   = parse . print . parse
+   * persistent  handler.rs:2938: format_rule_text, then parse_rule_definition (src/statement/parser.rs:619)
+                 -> SerializableRule::from_rule (src/statement/serialize.rs:96; from_term :132 maps function
+                 calls, vector literals and booleans to Placeholder, hnsw_nearest to a dummy atom), stored
+                 as JSON by the rule catalog, to_rule (:114) at load; build_rule_prefix
+                 (src/storage_engine/snapshot.rs:142) prints the rules again and the engine parses
+                 prefix ++ query (snapshot.rs:183/209).                    = parse . print . T . parse . print . parse
+   So the claim "each path is parse . print composed 0, 1 or 2 times" holds except for the map
+   T = to_rule . from_rule of the persistent path, which is modelled (ser_rule) and is the identity
+   exactly on rules without function calls, vectors, booleans, hnsw_nearest and non-finite floats. *)
+From Coq Require Import String.
+From IL Require Import Model.Syntax Model.SyntaxWf Proofs.SyntaxBase Proofs.SyntaxArith2 Proofs.SyntaxArith3
+  Proofs.SyntaxParse Proofs.SyntaxRule Proofs.SyntaxPaths.
+Open Scope N_scope.
+
+(* The full statement would be
+     forall E r, (exists text, parse_rule E text = Some r) -> parse_rule E (show_rule E r) = Some r.
+   It is FALSE for the pinned tree (C09_refuted_* below).  What is proved is the round trip for the
+   decidable fragment wf_rule, for every environment E, with no hypothesis on E other than what
+   wf_rule itself evaluates (dbg_ok / disp_ok on the float constants that occur in r: their printed
+   text has the shape of a Rust float and parses back to the same bits).
+   The fragment contains every construct of the rule grammar: atoms, negation, the six comparisons,
+   hnsw_nearest(..), and as terms variables, integers, floats, strings, booleans, placeholders, vector
+   literals, standard and ranking aggregates (top_k, top_k_threshold, within_radius), function calls
+   and arithmetic.  `_partial`, outside the fragment (exercised by the per-run check only):
+     - string constants containing one of  , ( ) < > [ ] = !  (the parser accepts some of them);
+     - identifiers with non-ASCII characters, relation names that are not identifiers, aggregate
+       variable texts that are not identifiers;
+     - variables spelled like inf / nan / infinity, the float constant -inf (NaN is refuted below);
+     - an arithmetic term whose printed text is itself a float lexeme (side condition in wf_term; it
+       only happens for the refuted class 1);
+     - a comparison whose printed text starts with "hnsw_nearest(" (side condition in wf_bpred). *)
+Theorem C09_roundtrip_partial :
+  forall (E : env) (r : rule), wf_rule E r = true -> parse_rule E (show_rule E r) = Some r.
+Proof. exact parse_rule_rt. Qed.
+
+(* arithmetic (all five operators, precedence, parentheses, negative and float leaves) and terms *)
+Theorem C09_arith_roundtrip :
+  forall (E : env) (a : arith), wf_arith E a = true ->
+  forall n, (need a <= n)%nat -> parith E n LAdd (show_arith E a) = Some a.
+Proof. intros E a W. exact (proj1 (parith_roundtrip E a W)). Qed.
+
+Theorem C09_term_roundtrip_partial :
+  forall (E : env) (t : term), wf_term E t = true ->
+  forall n, (tneed t <= n)%nat -> parse_term E n (show_term E t) = Some t.
+Proof. exact parse_term_rt. Qed.
+
+(* the submission paths agree with the direct path on every accepted text whose rule is in the
+   fragment; the persistent path in addition needs ser_lossy r = false (class 6 otherwise) *)
+Theorem C09_paths_agree_partial :
+  forall (E : env) (text : str) (r : rule),
+    parse_rule E text = Some r -> wf_rule E r = true ->
+    path_direct E text = Some r /\ path_printed E text = Some r /\
+    (ser_lossy r = false -> path_persistent E text = Some r).
+Proof. exact paths_agree. Qed.
+
+(* ------------------------------------------------------------------ refutations (pinned tree, after the
+   two `fix:` commits).  Each witness is in the image of the parser (the harness corpus holds the text) *)
+Definition v (s : string) : term := TVar (lit s).
+Definition at_ (n : string) (l : list term) : atom := Atom (lit n) l.
+
+(* class 1:  p(X, Y) <- q(X), Y = X1e - 3   prints  ... Y = X1e-3 , which is rejected *)
+Definition w_sci : rule :=
+  Rule (at_ "p" [v "X"; v "Y"])
+       [BPos (at_ "q" [v "X"]); BCmp (v "Y") CEq (TArith (ABin OSub (AVar (lit "X1e")) (AInt 3)))].
+Theorem C09_refuted_sci_identifier :
+  forall E, known_class E w_sci = 1 /\ parse_rule E (show_rule E w_sci) = None.
+Proof. intros E. split; vm_compute; reflexivity. Qed.
+
+(* class 2:  p(X, -nan)  holds FloatConstant(NaN), prints p(X, NaN), re-parses with the VARIABLE NaN *)
+Definition w_nan : rule := Rule (at_ "p" [v "X"; TFloat qnan]) [BPos (at_ "q" [v "X"])].
+Definition E2 : env :=   (* Rust: format!("{:?}", f64::NAN) = "NaN", "NaN".parse::<f64>() = NaN *)
+  mkEnv (fun _ => 0) (fun s => if str_eqb s (lit "NaN") then Some qnan else None)
+        (fun _ => lit "NaN") (fun _ => lit "NaN").
+Theorem C09_refuted_nan_constant :
+  dbg_ok E2 qnan = true /\ known_class E2 w_nan = 2 /\
+  parse_rule E2 (show_rule E2 w_nan) = Some (Rule (at_ "p" [v "X"; v "NaN"]) [BPos (at_ "q" [v "X"])]).
+Proof. vm_compute. repeat split; reflexivity. Qed.
+
+(* class 3:  abs(count< -X >)  prints  abs(count<-X>) : a second "<-" *)
+Definition w_arrow : rule := Rule (at_ "abs" [TAgg GCount (lit "-X")]) [].
+Theorem C09_refuted_printed_arrow :
+  forall E, known_class E w_arrow = 3 /\ parse_rule E (show_rule E w_arrow) = None.
+Proof. intros E. split; vm_compute; reflexivity. Qed.
+
+(* class 4:  p(top_k<3, Y, Y:desc>) <- q(X, Y)  prints  top_k<3, Y:desc, Y:desc> *)
+Definition w_dup : rule :=
+  Rule (at_ "p" [TAgg (GTopK 3 (lit "Y") [lit "Y"; lit "Y"] true) []]) [BPos (at_ "q" [v "X"; v "Y"])].
+Theorem C09_refuted_duplicate_order_variable :
+  forall E, known_class E w_dup = 4 /\ parse_rule E (show_rule E w_dup) = None.
+Proof. intros E. split; vm_compute; reflexivity. Qed.
+
+(* class 5:  q() <- hnsw_nearest ()  prints  q() <- hnsw_nearest() *)
+Definition w_hnsw : rule := Rule (at_ "q" []) [BPos (at_ "hnsw_nearest" [])].
+Theorem C09_refuted_relation_named_hnsw_nearest :
+  forall E, known_class E w_hnsw = 5 /\ parse_rule E (show_rule E w_hnsw) = None.
+Proof. intros E. split; vm_compute; reflexivity. Qed.
+
+(* class 6 (persistent path):  ans(X) <- b(X, true)  is stored as  ans(X) <- b(X, _) *)
+Definition w_ser : rule := Rule (at_ "ans" [v "X"]) [BPos (at_ "b" [v "X"; TBool true])].
+Theorem C09_refuted_persistent_form_is_lossy :
+  forall E, known_class_paths E w_ser = 6 /\
+            ser_rule w_ser = Rule (at_ "ans" [v "X"]) [BPos (at_ "b" [v "X"; TPh])] /\ ser_rule w_ser <> w_ser.
+Proof. intros E. split; [|split]; try (vm_compute; reflexivity). vm_compute. discriminate. Qed.
+
+(* ------------------------------------------------------------------ non-vacuity: a rule of the fragment with
+   every covered construct, in an environment holding Rust's texts for the floats 2.0 and 0.5 *)
+Definition b20 : N := 4611686018427387904.  (* 2.0 *)
+Definition b05 : N := 4602678819172646912.  (* 0.5 *)
+Definition E1 : env :=
+  mkEnv (fun _ => 0)
+        (fun s => if str_eqb s (lit "2.0") || str_eqb s (lit "2") then Some b20
+                  else if str_eqb s (lit "0.5") then Some b05 else None)
+        (fun b => if b =? b20 then lit "2" else lit "0.5")
+        (fun b => if b =? b20 then lit "2.0" else lit "0.5").
+Definition w_ok : rule :=
+  Rule (at_ "p" [v "X"; TAgg GSum (lit "Y"); TStr (lit "a b"); TFloat b20])
+       [BPos (at_ "q" [v "X"; v "Y"; TPh; TInt (-7); TBool true; TVec [b20; b05];
+                       TAgg (GTopKThr 3 (lit "S") [lit "N"; lit "S"] b05 false) []]);
+        BHnsw (lit "idx") (TVec [b20; b05]) 5 (lit "Id") (lit "Dist") (Some 50);
+        BNeg (at_ "r" [v "X"; TFun (lit "abs") [v "Y"]]);
+        BCmp (v "Z") CEq (TArith (ABin OMul (ABin OSub (AVar (lit "Y")) (AInt (-1)))
+                                        (ABin ODiv (AFloat b05) (ABin OAdd (AVar (lit "X")) (AInt 2)))));
+        BCmp (TFun (lit "euclidean") [v "V"; TVec [b20; b20]]) CLe (TFloat b05);
+        BCmp (v "X") CNe (TStr (lit "it's"))].
+Example C09_nonvacuous :
+  wf_rule E1 w_ok = true /\
+  show_rule E1 w_ok =
+    lit "p(X, sum<Y>, ""a b"", 2.0) <- q(X, Y, _, -7, true, [2, 0.5], top_k_threshold<3, 0.5, N, S:asc>), hnsw_nearest(""idx"", [2, 0.5], 5, Id, Dist, 50), !r(X, abs(Y)), Z = (Y--1)*(0.5/(X+2)), euclidean(V, [2, 2]) <= 0.5, X != ""it's""" /\
+  parse_rule E1 (show_rule E1 w_ok) = Some w_ok /\
+  known_class_paths E1 w_ok = 6.
+Proof. vm_compute. repeat split; reflexivity. Qed.
+
+Print Assumptions C09_roundtrip_partial.
+Print Assumptions C09_arith_roundtrip.
+Print Assumptions C09_term_roundtrip_partial.
+Print Assumptions C09_paths_agree_partial.
+Print Assumptions C09_refuted_sci_identifier.
+Print Assumptions C09_refuted_nan_constant.
+Print Assumptions C09_refuted_printed_arrow.
+Print Assumptions C09_refuted_duplicate_order_variable.
+Print Assumptions C09_refuted_relation_named_hnsw_nearest.
+Print Assumptions C09_refuted_persistent_form_is_lossy.
